@@ -226,3 +226,43 @@ Example C10_session_nonvacuous :
                              OFind 0 [97; 98; 10]%N 2 0%Z; OFind 1 [102; 97; 97; 98; 10]%N 2 0%Z] [] true)
     = [BMake (Ok None); BMake (Ok (Some rs)); BNone; BFind (Ok (0%Z, [(1%Z, 4%Z); ((-1)%Z, (-1)%Z)]), c)].
 Proof. eexists. eexists. vm_compute. reflexivity. Qed.
+
+(* ---- re_groupcount of rset.c (translated: GenCFuncs.F_re_groupcount) is the model RsetDefs.gcount, coq/TrRset.v ----------
+   The theorems C10_rset_index_all / C10_accepted_shape above speak about the hand-written re_groupcount_opt; this one ties
+   that model to the C TEXT: tools/c2clite.py prints clang's AST of re_groupcount as a CLite term (CLite.v fixes what the
+   term means: checked loads, signed overflow an error, loops on fuel), and for EVERY NUL-free pattern string in memory
+   (any bytes 1..255, the length inside int) running the term returns the model's count, or -1 where the model says None
+   (a lone backslash at the end, an unclosed bracket expression, an unmatched ')' or an unclosed '('); the memory is
+   unchanged; every load was inside the block of the string (bytes + terminator) -- a load outside is the error EOob, not a
+   value -- and neither n++ / dep++ / --dep overflows.  The bracket expression is skipped with the statements of regex.c's
+   brk_len (fix f534655), the escape rule is that of fix 3139e7f.
+   (CLite is only Required, not Imported: its Ok / bind / do-notation would shadow ReSyntax's.) *)
+From NV Require CLite CLiteProps GenCFuncs TrRset.
+Theorem C10_tr_re_groupcount : forall m b (s : bytes) d fuel,
+  CLiteProps.str_at m b s -> nonul s -> (Z.of_nat (length s) <= 2147483647)%Z -> length s < fuel ->
+  CLite.callf GenCFuncs.cprog fuel (S d) GenCFuncs.F_re_groupcount [CLite.VPtr b 0] m
+  = CLite.Ok (CLite.VInt (match re_groupcount_opt s with Some n => Z.of_nat n | None => (-1)%Z end), m).
+Proof. exact TrRset.tr_re_groupcount. Qed.
+Print Assumptions C10_tr_re_groupcount.
+
+(* non-vacuity: the hypotheses hold and the translated function RUNS (vm_compute of the CLite interpreter) on the inputs of
+   the two fixes:  [a[*](x)  (f534655: the bracket expression ends at the first ']', one group follows),  a)(b  (3139e7f: the
+   ')' would close the wrapper group: -1),  \(  (an escaped parenthesis is not a group: 0),  and on a lone backslash (-1);
+   one load past the terminator is the error EOob *)
+Definition C10_tr_mem (s : bytes) : CLite.mem := [CLite.cstr_block (CLiteProps.zb s)].
+Example C10_tr_nonvacuous :
+  let p1 := [91; 97; 91; 42; 93; 40; 120; 41]%N in let p2 := [97; 41; 40; 98]%N in let p3 := [92; 40]%N in let p4 := [92]%N in
+  CLiteProps.str_at (C10_tr_mem p1) 0 p1 /\ nonul p1 /\ nonul p2 /\ nonul p3 /\
+  CLite.callf GenCFuncs.cprog 20 1 GenCFuncs.F_re_groupcount [CLite.VPtr 0 0] (C10_tr_mem p1) = CLite.Ok (CLite.VInt 1, C10_tr_mem p1) /\
+  re_groupcount_opt p1 = Some 1 /\
+  CLite.callf GenCFuncs.cprog 20 1 GenCFuncs.F_re_groupcount [CLite.VPtr 0 0] (C10_tr_mem p2) = CLite.Ok (CLite.VInt (-1), C10_tr_mem p2) /\
+  re_groupcount_opt p2 = None /\
+  CLite.callf GenCFuncs.cprog 20 1 GenCFuncs.F_re_groupcount [CLite.VPtr 0 0] (C10_tr_mem p3) = CLite.Ok (CLite.VInt 0, C10_tr_mem p3) /\
+  re_groupcount_opt p3 = Some 0 /\
+  CLite.callf GenCFuncs.cprog 20 1 GenCFuncs.F_re_groupcount [CLite.VPtr 0 0] (C10_tr_mem p4) = CLite.Ok (CLite.VInt (-1), C10_tr_mem p4) /\
+  re_groupcount_opt p4 = None /\
+  CLite.callf GenCFuncs.cprog 20 1 GenCFuncs.F_re_groupcount [CLite.VPtr 0 10] (C10_tr_mem p1) = CLite.Err CLite.EOob.
+Proof.
+  cbv zeta. split; [reflexivity|]. split; [repeat constructor|]. split; [repeat constructor|]. split; [repeat constructor|].
+  repeat split; vm_compute; reflexivity.
+Qed.
